@@ -113,7 +113,18 @@ func runOps(w *conc.World, n *conc.Node, ops []string, progress func(i int)) (*c
 		case op == "C":
 			before, _ := snap(n)
 			n.Close()
-			n = w.OpenNode(n.Dir, nil)
+			var perr error
+			func() {
+				defer func() {
+					if r := recover(); r != nil {
+						perr = fmt.Errorf("clean restart panics: %v", r)
+					}
+				}()
+				n = w.OpenNode(n.Dir, nil)
+			}()
+			if perr != nil {
+				return n, perr
+			}
 			after, pr := snap(n)
 			if len(pr) > 0 {
 				return n, fmt.Errorf("after clean restart: %s", pr[0])
@@ -263,7 +274,32 @@ func main() {
 					add("continue-panic", fmt.Sprint("feeding the remaining blocks panics: ", r))
 				}
 			}()
-			n, _ = runOps(w, n, append(rest, "I", "W"), nil)
+			n, _ = runOps(w, n, rest, nil)
+			// a second process death right after the blocks reached the disk and before any new snapshot: the
+			// node must come back to the same state by replaying its block files
+			n.Ch.Blocks.Idle()
+			mid, _ := snap(n)
+			func() {
+				defer func() {
+					if r := recover(); r != nil {
+						add("reopen-panic", fmt.Sprint("second restart (blocks flushed, no new snapshot) panics: ", r))
+					}
+				}()
+				n2 := w.OpenNode(*node, nil) // the first node object is simply abandoned, as a killed process would be
+				st2, pr2 := snap(n2)
+				for _, p := range pr2 {
+					add("second-restart-utxo", p)
+				}
+				if delivered[st2.Tip] && st2.Tip == mid.Tip {
+					if d := sameUtxo(st2.Utxo, mid.Utxo); d != "" {
+						add("second-restart-utxo", "UTXO set after a second restart differs from the state before it: "+d)
+					}
+				} else if st2.Tip != mid.Tip && n.W.HeightOf(st2.Tip) >= n.W.HeightOf(mid.Tip) {
+					add("second-restart-tip", fmt.Sprintf("second restart ends on block %d, the node was on %d", st2.Tip, mid.Tip))
+				}
+				n = n2
+			}()
+			n, _ = runOps(w, n, []string{"I", "W"}, nil)
 			fst, fpr := snap(n)
 			rep.Final = fst
 			for _, p := range fpr {
